@@ -34,7 +34,10 @@ Shapes == {"nest-bind",        \* {{{...}}} bind          nesting = size
            "unbalanced-close", \* }}}}... size times
            "copy-huge",        \* 1 2 3 <huge> copy
            "roll-huge",        \* 1 2 3 3 <huge> roll
-           "cvx-nest-bind"}    \* {} size { [ exch ] cvx } repeat bind   (nesting built at run time)
+           "cvx-nest-bind",    \* {} size { [ exch ] cvx } repeat bind   (nesting built at run time)
+           "bind-shared",      \* {} size { [ exch dup ] cvx } repeat bind  (each level holds the previous one twice)
+           "bind-self-multi",  \* a procedure stored in min(size, 24) of its own slots, then bound
+           "default-handler"}  \* errordict /typecheck get exec   (default handler without a pending error)
 
 VARIABLE pick
 Init == pick = <<>>
